@@ -18,6 +18,11 @@ Monitor shape: executable three-line reference + cross-implementation comparison
   ``sendFrame()`` is also called directly with its optional arguments (``payload_len`` = repeated / truncated
   payload, explicit ``mask`` keys, ``chopsize`` / ``sync`` queued writes) as single-frame messages, continuation
   sequences and control frames: the application bytes of such a frame are the documented repetition of ``payload``.
+  Sender-side objects are RE-USED: one ``PreparedMessage`` is sent 3..6 times - on one connection with the other
+  sending APIs in between, fanned out over sibling connections, with ``doNotCompress``, and on connections with
+  permessage-deflate in use (RSV1 frames are unmasked with the header key and inflated by an own zlib stream) - and the
+  same payload object goes through ``sendMessage()`` several times; every such frame is judged like a first send and
+  the frames of one prepared object sent by a client must not all carry one key.
 """
 
 import os
@@ -39,7 +44,10 @@ RULE = ("lattice cell = (payload length n, starting offset 0..3 reached by pre-f
         "create_xor_masker() selection in AUTOBAHN_USE_NVX=0/1 processes, and scripted sends through the real "
         "protocol classes (all sending APIs incl. direct sendFrame() with pattern lengths 1,2,3,5,7,10 repeated to "
         "7/35/127/128/129/1000/70000 octets, truncated, explicit keys, chopsize/sync; payload sizes around "
-        "125/126/128/65535/65536). A case is non-trivial "
+        "125/126/128/65535/65536; per connection 5..8 PreparedMessage objects are each sent 3..6 times - on the "
+        "connection itself with the other operations shuffled in between, fanned out over sibling connections of the "
+        "same and of another factory, with and without doNotCompress - plus connections with permessage-deflate in use "
+        "where prepared messages take the pre-built-frame or the sendMessage() path). A case is non-trivial "
         "when at least one octet was processed and compared with the reference / at least one frame was parsed; "
         "distinct = lattice cell id, (size, chunking) hash of a generated payload, (role, api, size class) on the wire.")
 ASSUMPTIONS = [
@@ -51,7 +59,9 @@ ASSUMPTIONS = [
     "wire policy is asserted for DEFAULT options only; maskClientFrames=False, maskServerFrames=True, applyMask=False are never driven",
     "direct sendFrame(): only its documented behaviour is asserted - one call writes one frame with the given opcode/fin (rsv=0 always, only valid single-frame messages, continuation sequences and control frames <= 125 octets are sent so that the real peer can receive them); with payload_len the frame payload is the first payload_len octets of the endless repetition of `payload` (docstring: 'it will always write that many octets ... wrap within payload, resending parts of that'; payload_len < len(payload) = a prefix, payload_len=0 = empty frame; payload=b'' with payload_len raises and is not driven); chopsize/sync only change how the octets are handed to the transport (the send queue is drained by advancing the clock / running the loop for _QUEUED_WRITE_DELAY at a time)",
     "sendFrame(mask=<4 octets>): asserted = a client frame carries the mask bit, a frame carrying the mask bit carries exactly the given key (fixed in /repo by daed40a3) and its payload is the XOR with it; recorded only = that a server masks such a frame; these frames are excluded from the key-diversity monitors; the receiving client peer runs with acceptMaskedServerFrames=True so that it can take them",
-    "per-frame key: among N >= 8 frames produced by one per-frame API on one connection at least N/2 distinct keys must occur, and the >= 3 masked frames of one fragmented message must not all share one key (false-alarm chance <= 2^-64 per message with 32-bit random keys); PreparedMessage is masked once at preparation time and is excluded from the key-diversity monitor",
+    "per-frame key: among N >= 8 frames produced by one per-frame API on one connection at least N/2 distinct keys must occur, and the >= 3 masked frames of one fragmented message must not all share one key (false-alarm chance <= 2^-64 per message with 32-bit random keys); DIFFERENT PreparedMessage objects are each masked at preparation time and are not pooled into the per-connection key-diversity monitor",
+    "one PreparedMessage object sent N >= 3 times by a client (documented use: 'sent later once or multiple times on one or more WebSocket connections'; prepareMessage() of a client factory masks): every send is a frame a client sends, so the N frames must not all carry one key and for N >= 4 more than N/2 distinct keys must occur (chance <= 2^-64); each frame's payload must be the XOR of the message with the key in ITS header. A server's prepared frames must stay unmasked and verbatim on every send. Sibling connections are further protocol instances of the same role (odd ones built on the first connection's factory), all received by one real peer (every operation is a complete message)",
+    "permessage-deflate connections: PerMessageDeflate(default parameters) objects are installed on both protocol instances the way the handshake code does (_perMessageCompress, websocket_extensions_in_use); RSV1 frames are unmasked with the header key and inflated by one own zlib.decompressobj(-15) per connection (context takeover) - the compressor itself is trusted here (C12's subject); only sendMessage() and sendPreparedMessage() are driven on such connections",
     "protocol instances are the framework-agnostic base classes wired like src/autobahn/websocket/test/test_websocket_protocol.py does (factory, fake transport, _connectionMade(), state=OPEN); receive glue (_onMessage*..) mirrors the Twisted adapter",
 ]
 DECIDING = {
@@ -82,6 +92,18 @@ DECIDING = {
     "wire_sendframe_queued_frames": 20,              # chopsize / sync: written through the send queue
     "wire_sendframe_rx_compared": 100,               # delivered by the real peer protocol
     "sendframe_repetitions": 20,                     # distinct (pattern length -> frame length) pairs
+    # ONE PreparedMessage object sent several times (same connection, interleaved with the other APIs; fan-out)
+    "wire_prepared_resend_frames": 100,              # 2nd and later sends of an object: frame parsed + compared
+    "wire_prepared_third_plus_client_compared": 40,  # 3rd..6th send by a client, non-empty payload: XOR with the header key compared
+    "wire_prepared_third_plus_server_compared": 40,
+    "wire_prepared_fanout_frames": 20,               # re-sent on another connection than the first send
+    "wire_prepared_donotcompress_frames": 20,
+    "wire_prepared_key_sets_checked": 10,            # >= 3 masked sends of one object: key freshness evaluated
+    "prepared_send_depth": 12,                       # distinct (role, plan, n-th send)
+    # permessage-deflate in use on the connection
+    "wire_pmce_frames_compared": 100,
+    "wire_pmce_inflated_compared": 40,               # RSV1 frames: unmasked with the header key, inflated by an own zlib stream
+    "wire_pmce_prepared_raw_resend_frames": 10,      # doNotCompress prepared frame re-sent on such a connection
 }
 
 KEYS_FIXED = [b"\x00\x00\x00\x00", b"\xff\xff\xff\xff", b"\x12\x34\x56\x78"]
@@ -782,6 +804,9 @@ SF_PATLENS = [1, 2, 3, 5, 7, 10]
 SF_TARGETS = [7, 35, 127, 128, 129, 1000, 70000]
 SF_OTHER_PATLENS = [1, 2, 3, 4, 5, 7, 8, 10, 13, 130, 300]
 SF_APIS = ("sendFrame", "sendFrame-fragments", "sendFrame-control")
+# one PreparedMessage object sent several times
+PREP_SIZES = [0, 1, 2, 3, 5, 13, 124, 125, 126, 127, 128, 129, 200, 1000]
+PREP_BIG_SIZES = [65535, 65536, 70001]
 
 
 def sf_expand(pattern, payload_len):
@@ -862,11 +887,13 @@ class Wire:
         self.classes = {"client": (P.WebSocketClientFactory, glue(P.WebSocketClientProtocol)),
                         "server": (P.WebSocketServerFactory, glue(P.WebSocketServerProtocol))}
 
-    def make(self, role):
+    def make(self, role, factory=None):
         txaio = self.txaio
         F, Pr = self.classes[role]
-        f = F()
-        f.log = txaio.make_logger()
+        f = factory
+        if f is None:
+            f = F()
+            f.log = txaio.make_logger()
         p = Pr()
         p.log = txaio.make_logger()
         p.factory = f
@@ -1063,10 +1090,36 @@ class Wire:
                 cuts = sorted(rng.randint(0, len(body)) for _c in range(nchunks - 1))
                 frames.append((body, cuts))
             ops.append(("beginMessageFrame", True, frames, None))
+        # prepared messages: a fresh PreparedMessage object sent once ...
+        slot = 0
         for _ in range(4):
             n = rng.choice(sizes)
             binary = rng.random() < 0.7
-            ops.append(("sendPreparedMessage", binary, pay(n, not binary), None))
+            slot += 1
+            ops.append(("sendPreparedMessage", binary, pay(n, not binary),
+                        {"slot": slot, "conn": 0, "dnc": rng.random() < 0.3, "plan": "once"}))
+        # ... and ONE PreparedMessage object sent 3..6 times ("to be sent later once or multiple times on one or more
+        # WebSocket connections"): on this connection - the ops are shuffled, so the re-sends are interleaved with every
+        # other sending API - and fanned out over sibling connections of the same role (same and other factory)
+        plans = ["same", "fanout", "mixed", "same", "fanout"] if tier == "quick" else [
+            "same", "fanout", "mixed", "same", "fanout", "mixed", "same", "fanout"]
+        big = rng.randrange(len(plans))
+        for pi, plan in enumerate(plans):
+            slot += 1
+            n = rng.choice(PREP_BIG_SIZES if pi == big else PREP_SIZES)
+            binary = rng.random() < 0.7
+            data = pay(n, not binary)
+            dnc = rng.random() < 0.4
+            k = rng.randint(3, 6)
+            for i in range(k):
+                conn = 0 if plan == "same" else (i if plan == "fanout" else rng.choice([0, 0, 1, 2]))
+                ops.append(("sendPreparedMessage", binary, data, {"slot": slot, "conn": conn, "dnc": dnc, "plan": plan}))
+        # the same payload OBJECT sent several times through the per-frame API
+        for _ in range(2):
+            binary = rng.random() < 0.7
+            data = pay(rng.choice(PREP_SIZES[1:]), not binary)
+            for i in range(3):
+                ops.append(("sendMessage", binary, data, None))
         for _ in range(5):
             ops.append(("sendPing", None, pay(rng.choice([0, 1, 4, 5, 125])), None))
             ops.append(("sendPong", None, pay(rng.choice([0, 1, 4, 5, 125])), None))
@@ -1076,7 +1129,7 @@ class Wire:
         ops.append(("sendClose", None, (rng.choice([1000, 3000, 4999]), reason), None))
         return ops
 
-    def execute(self, f, p, op):
+    def execute(self, f, p, op, ctx):
         """Run one op on protocol p; return list of expected logical items [(kind, binary, payload)]."""
         api, binary, data, extra = op
         if api in SF_APIS:
@@ -1111,7 +1164,15 @@ class Wire:
             p.endMessage()
             return [("msg", binary, b"".join(b for b, _ in data))]
         if api == "sendPreparedMessage":
-            pm = f.prepareMessage(data, binary)
+            # one PreparedMessage object per slot, prepared (by the first connection's factory) at its first send
+            pm = ctx["prepared"].get(extra["slot"])
+            if pm is None:
+                if extra["dnc"]:
+                    pm = f.prepareMessage(data, binary, doNotCompress=True)
+                else:
+                    pm = f.prepareMessage(data, binary)
+                ctx["prepared"][extra["slot"]] = pm
+            ctx["sends"][extra["slot"]] = ctx["sends"].get(extra["slot"], 0) + 1
             p.sendPreparedMessage(pm)
             return [("msg", binary, data)]
         if api == "sendPing":
@@ -1176,12 +1237,30 @@ class Wire:
         keysets = {}     # api family -> list of keys (per connection)
         replay = {"kind": "wire", "role": role, "cseed": cseed, "tier": tier}
         ops = self.script(rng, tier)
+        ctx = {"prepared": {}, "sends": {}}
+        conns = {0: p}           # sibling connections of the same role for the prepared-message fan-out
+        slot_keys = {}           # prepared slot -> masking keys of its sends (client)
+        slot_conns = {}
         for op in ops:
             api = op[0]
             R.count("evaluations")
-            expected = self.execute(f, p, op)
-            queued = self.drain(p)
-            octets = p.transport.take()
+            sender = p
+            prep = op[3] if api == "sendPreparedMessage" else None
+            if prep is not None:
+                j = prep["conn"]
+                if j not in conns:
+                    conns[j] = self.make(role, factory=f if j % 2 else None)[1]
+                    R.count("wire_sibling_connections")
+                sender = conns[j]
+            expected = self.execute(f, sender, op, ctx)
+            queued = self.drain(sender)
+            octets = sender.transport.take()
+            nth = 1
+            if prep is not None:
+                nth = ctx["sends"][prep["slot"]]
+                if nth > 1:
+                    # mechanism: an object prepared once is sent again
+                    api = "sendPreparedMessage-resend"
             frames, err = parse_frames(octets)
             calls = op[2] if api in SF_APIS else None      # direct sendFrame(): one call = one frame
             R.count("wire_ops")
@@ -1244,7 +1323,7 @@ class Wire:
                     else:
                         plain.append(ref_xor(fr["raw"], fr["key"], 0))
                         msg_keys.append(fr["key"])
-                        fam = "sendPreparedMessage" if api == "sendPreparedMessage" else (
+                        fam = "sendPreparedMessage" if prep is not None else (
                             "sendFrame-direct" if call is not None else
                             "beginMessageFrame-path" if (api in ("sendMessageFrame", "beginMessageFrame") and not (
                                 fr["fin"] and fr["opcode"] == 0 and len(fr["raw"]) == 0)) else "sendFrame-path")
@@ -1261,8 +1340,22 @@ class Wire:
                         plain.append(fr["raw"])
                 if fr["opcode"] >= 8:
                     R.count("wire_control_frames")
-                if api == "sendPreparedMessage":
+                if prep is not None:
                     R.count("wire_prepared_frames")
+                    if fr["masked"]:
+                        slot_keys.setdefault(prep["slot"], []).append(fr["key"])
+            if prep is not None:
+                # deciding for "one prepared object, several sends": which send of the object this was, on which connection
+                first_conn = slot_conns.setdefault(prep["slot"], prep["conn"])
+                R.seen("prepared_send_depth", "%s/%s/send-%d" % (role, prep["plan"], min(nth, 6)))
+                if nth >= 2:
+                    R.count("wire_prepared_resend_frames", len(frames))
+                    if prep["conn"] != first_conn:
+                        R.count("wire_prepared_fanout_frames", len(frames))
+                if nth >= 3 and len(expected[0][2]) > 0:
+                    R.count("wire_prepared_third_plus_%s_compared" % role)
+                if prep["dnc"]:
+                    R.count("wire_prepared_donotcompress_frames", len(frames))
             kind, binary, app = expected[0]
             got = b"".join(plain)
             R.count("wire_payloads_compared")
@@ -1281,7 +1374,7 @@ class Wire:
                      "got": got[max(0, i - 4):i + 12].hex(), "want": app[max(0, i - 4):i + 12].hex()}, replay)
             # >= 3 masked frames of ONE message sharing one key: chance 2^-64 with per-frame random keys
             for fam, mk in msg_fam_keys.items():
-                if role == "client" and api != "sendPreparedMessage" and len(mk) >= 3:
+                if role == "client" and prep is None and len(mk) >= 3:
                     R.count("wire_key_sets_checked")
                     R.count("wire_message_key_sets_checked")
                     if len(set(mk)) < 2:
@@ -1336,8 +1429,158 @@ class Wire:
                     R.violation("C15/wire/constant-key/%s" % fam,
                                 "all %d client frames produced through %s on one connection carry the same masking key %s" % (
                                     len(ks), fam, ks[0].hex()), {"family": fam, "frames": len(ks)}, replay)
+            self.prepared_key_monitor(role, slot_keys, replay)
+        for c in conns.values():
+            self.cleanup(c)
+        self.cleanup(peer)
+
+    # ---- permessage-deflate negotiated: prepared messages take one of two paths ------------------------
+    def run_pmce_connection(self, role, cseed, tier):
+        """A connection on which permessage-deflate is in use (default parameters, context takeover).  A PreparedMessage
+        with doNotCompress=True goes out as the pre-built frame (RSV1=0), one without falls back to sendMessage() (RSV1=1,
+        per-frame key); both are sent several times, interleaved with sendMessage().  Oracle per frame: mask bit per role;
+        octets unmasked with the key in the frame header, then - when RSV1 is set - inflated with an own zlib stream for
+        the connection, must equal the application bytes; the real peer must deliver them."""
+        import zlib
+        from autobahn.websocket.compress import PerMessageDeflate
+        R = self.R
+        rng = random.Random(cseed * 31 + 5)
+        f, p = self.make(role)
+        peer_role = "server" if role == "client" else "client"
+        pf, peer = self.make_peer(peer_role)
+        for x, is_server in ((p, role == "server"), (peer, role != "server")):
+            x._perMessageCompress = PerMessageDeflate(is_server, False, False, 0, 0, None)
+            x.websocket_extensions_in_use = [x._perMessageCompress]
+        inflater = zlib.decompressobj(-15)
+        replay = {"kind": "wire-pmce", "role": role, "cseed": cseed, "tier": tier}
+
+        def pay(n, text):
+            if text:
+                words = [b"masking ", b"key ", b"frame ", b"client ", b"server ", b"xor ", b"%d " % rng.randrange(1000)]
+                out = b""
+                while len(out) < n:
+                    out += rng.choice(words)
+                return out[:n]
+            return rng.randbytes(n)
+        ops = []
+        for n in rng.sample([0, 1, 5, 125, 126, 127, 128, 129, 300, 1000, 70001], 6):
+            binary = rng.random() < 0.5
+            ops.append(("sendMessage", binary, pay(n, not binary), {"dnc": False}))
+        for n in (7, 200):
+            ops.append(("sendMessage", True, pay(n, False), {"dnc": True}))
+        slot_keys = {}
+        sends = {}
+        prepared = {}
+        for slot, dnc in enumerate(rng.sample([True, True, False, False], 4 if tier != "quick" else 3)):
+            binary = rng.random() < 0.5
+            data = pay(rng.choice([1, 13, 126, 200, 1000, 66000]), not binary)
+            for i in range(rng.randint(3, 5)):
+                ops.append(("sendPreparedMessage", binary, data, {"dnc": dnc, "slot": slot}))
+        rng.shuffle(ops)
+        for api, binary, data, extra in ops:
+            R.count("evaluations")
+            label = api + "+pmce"
+            if api == "sendMessage":
+                if extra["dnc"]:
+                    p.sendMessage(data, binary, doNotCompress=True)
+                else:
+                    p.sendMessage(data, binary)
+            else:
+                pm = prepared.get(extra["slot"])
+                if pm is None:
+                    pm = prepared[extra["slot"]] = f.prepareMessage(data, binary, doNotCompress=extra["dnc"])
+                sends[extra["slot"]] = sends.get(extra["slot"], 0) + 1
+                if sends[extra["slot"]] > 1:
+                    label = "sendPreparedMessage-resend+pmce"
+                p.sendPreparedMessage(pm)
+            self.drain(p)
+            octets = p.transport.take()
+            frames, err = parse_frames(octets)
+            R.seen("nontrivial", "%s/%s/%s/%s/%d" % (self.params["fwname"], role, label, extra["dnc"], len(data).bit_length()))
+            R.seen("apis", "%s/%s" % (role, label))
+            if err or len(frames) != 1:
+                R.violation("C15/wire/unparseable/%s" % label,
+                            "octets written by %s %s are not one complete RFC 6455 frame: %s (%d frames)" % (
+                                role, label, err, len(frames)), {"octets_head": octets[:64].hex(), "len": len(octets)}, replay)
+                break
+            fr = frames[0]
+            R.count("wire_client_frames" if role == "client" else "wire_server_frames")
+            if role == "client" and not fr["masked"]:
+                R.violation("C15/wire/client-frame-unmasked/%s" % label,
+                            "client sent a frame without mask bit under default options (permessage-deflate in use)",
+                            {"api": label, "frame_head": octets[:16].hex()}, replay)
+            if role == "server" and fr["masked"]:
+                R.violation("C15/wire/server-frame-masked/%s" % label,
+                            "server sent a frame with mask bit under default options (permessage-deflate in use)",
+                            {"api": label, "frame_head": octets[:16].hex()}, replay)
+            got = ref_xor(fr["raw"], fr["key"], 0) if fr["masked"] else fr["raw"]
+            compressed = fr["rsv"] == 4
+            R.seen("pmce_paths", "%s/%s/dnc=%s/%s" % (role, api, extra["dnc"], "rsv1" if compressed else "plain"))
+            if compressed:
+                try:
+                    got = inflater.decompress(got + b"\x00\x00\xff\xff")
+                except zlib.error as e:
+                    got = b"<does not inflate: %s>" % str(e).encode()
+                R.count("wire_pmce_inflated_compared")
+            R.count("wire_pmce_frames_compared")
+            R.count("wire_payloads_compared")
+            if api == "sendPreparedMessage":
+                R.count("wire_prepared_frames")
+                if fr["masked"]:
+                    slot_keys.setdefault(extra["slot"], []).append(fr["key"])
+                if sends[extra["slot"]] > 1:
+                    R.count("wire_prepared_resend_frames")
+                    if not compressed:
+                        R.count("wire_pmce_prepared_raw_resend_frames")
+            if got != data:
+                i = next((j for j in range(min(len(got), len(data))) if got[j] != data[j]), min(len(got), len(data)))
+                R.violation(("C15/wire/payload-not-xor/%s" if (role == "client" or fr["masked"]) else
+                             "C15/wire/server-payload-altered/%s") % label,
+                            "%s %s: payload on the wire (unmasked with the key in the frame header%s) differs from the "
+                            "application bytes at octet %d" % (role, label, ", inflated" if compressed else "", i),
+                            {"api": label, "doNotCompress": extra["dnc"], "rsv": fr["rsv"], "masked": fr["masked"],
+                             "key": fr["key"].hex() if fr["key"] else None, "len": len(fr["raw"]),
+                             "got": got[max(0, i - 4):i + 12].hex(), "want": data[max(0, i - 4):i + 12].hex()}, replay)
+                break           # the own inflater may be out of step with the stream now
+            before = len(peer.rx)
+            i = 0
+            while i < len(octets):
+                step = rng.choice([1, 3, 7, 127, 128, 1000, len(octets)])
+                peer._dataReceived(octets[i:i + step])
+                i += step
+            new = peer.rx[before:]
+            peer.transport.take()
+            R.count("wire_rx_messages_compared")
+            if new != [("msg", binary, data)]:
+                R.violation("C15/wire/unmask-mismatch/%s-receiving/%s" % (peer_role, label),
+                            "the real %s protocol (permessage-deflate in use) fed with the octets the %s wrote did not deliver "
+                            "the sent payload" % (peer_role, role),
+                            {"delivered": [(x[0], (x[-1][:24].hex() if isinstance(x[-1], bytes) else x[-1])) for x in new][:4],
+                             "want": ("msg", data[:24].hex()), "peer_state": peer.state,
+                             "wasNotCleanReason": getattr(peer, "wasNotCleanReason", None)}, replay)
+                break
+        if role == "client":
+            self.prepared_key_monitor(role, slot_keys, replay)
         self.cleanup(p)
         self.cleanup(peer)
+
+    def prepared_key_monitor(self, role, slot_keys, replay, suffix=""):
+        """Per-frame key, one PreparedMessage object sent N >= 3 times by a client: the N frames must not all carry one
+        key (chance 2^-64 with fresh 32-bit keys), and for N >= 4 more than N/2 distinct keys must occur."""
+        R = self.R
+        for slot, ks in slot_keys.items():
+            if len(ks) < 3:
+                continue
+            R.count("wire_prepared_key_sets_checked")
+            d = len(set(ks))
+            R.seen("prepared_resend_keys", "%s/%s" % (role, "all-same" if d == 1 else "all-distinct" if d == len(ks) else
+                                                      "some-repeated"))
+            if d == 1 or (len(ks) >= 4 and d * 2 <= len(ks)):
+                R.violation("C15/wire/prepared-resend-same-key%s" % suffix,
+                            "one PreparedMessage sent %d times by a client under default options: the %d masked frames on the "
+                            "wire carry %d distinct masking key(s) (first %s) - not a per-frame key" % (
+                                len(ks), len(ks), d, ks[0].hex()),
+                            {"sends": len(ks), "distinct_keys": d, "keys": [k.hex() for k in ks][:8]}, replay)
 
 
 def run_wire(params, R):
@@ -1351,6 +1594,9 @@ def run_wire(params, R):
     for c in range(n_conn):
         for role in ("client", "server"):
             w.run_connection(role, base * 100 + c, params["tier"])
+    for c in range(2 if params["tier"] == "quick" else 12):
+        for role in ("client", "server"):
+            w.run_pmce_connection(role, base * 100 + 50 + c, params["tier"])
 
 
 # ------------------------------------------------------------------------------------------------
@@ -1378,6 +1624,12 @@ def replay(case, R):
         fwname = "tx" if txaio.using_twisted else "aio"
         w = Wire(R, {"fwname": fwname, "nvx": os.environ.get("AUTOBAHN_USE_NVX", "0"), "flavour": "replay"})
         w.run_connection(case["role"], case["cseed"], case.get("tier", "quick"))
+        return
+    if kind == "wire-pmce":
+        import txaio
+        fwname = "tx" if txaio.using_twisted else "aio"
+        w = Wire(R, {"fwname": fwname, "nvx": os.environ.get("AUTOBAHN_USE_NVX", "0"), "flavour": "replay"})
+        w.run_pmce_connection(case["role"], case["cseed"], case.get("tier", "quick"))
         return
     import autobahn.websocket.xormasker as X
     if hasattr(X, "XorMaskerSimple"):
@@ -1415,7 +1667,9 @@ MANIFEST_ENTRY = {
              "sending API (incl. direct sendFrame() with repeated/truncated payload_len, explicit mask keys, chopsize/sync, as "
              "single frames, continuation sequences and control frames) into a fake transport and an own RFC 6455 parser checks "
              "mask bit per role, payload == XOR(app bytes, "
-             "header key), key diversity, and the real peer protocol must deliver the sent bytes. Held = no mismatch on the "
+             "header key), key diversity, and the real peer protocol must deliver the sent bytes; one PreparedMessage object is "
+             "sent 3..6 times (same connection interleaved with the other APIs, fan-out over sibling connections, doNotCompress, "
+             "permessage-deflate in use) and every one of its frames is checked the same way incl. key freshness. Held = no mismatch on the "
              "executions listed in the evidence; not a proof."),
     "note": "trusts the three-line reference (anchored on the RFC 6455 5.7 example), cffi, the clang sanitizer runtime; only default masking options are asserted; buffer types other than bytes are not driven",
     "technique": "runtime monitoring: differential oracle (XOR reference + cross-implementation) over an exhaustive lattice and generated inputs, ASan+UBSan build of the C code, wire-level frame parser on the real protocol classes",
